@@ -74,3 +74,30 @@ Theorem C14b_tracked_distinct : forall jlook jsig balias main_name p main ps ws 
   NoDup (map fst (calls_program p)) -> NoDup (map fst tr).
 Proof. exact tracked_ids. Qed.
 Print Assumptions C14b_tracked_distinct.
+
+(* ---- completeness: every well-typed AST is produced, from its erasure, by the analysis; together with soundness the model
+   accepts EXACTLY the typed ASTs that are well typed and obey the static rules beyond typing, src_ok_main (witness used once
+   and only in main, distinct pattern / parameter names, for_while counter <= u16, arms bind identifiers, constants have a
+   literal, jets have a name). ---- *)
+Require Import SV.Front.Erase SV.Proofs.AnalyzeComplete.
+
+Theorem C04_analyze_complete : forall jlook jsig balias main_name W args jname spn main,
+  wt_program jsig W args main = true ->
+  src_ok_main jlook jname main = true ->
+  exists ps ws tr,
+    analyze_program jlook jsig balias main_name
+      (erase_program jname (fname_of main_name main) spn main_name main) = Ok (main, ps, ws, tr) /\
+    (forall n t, lookupN ws n = Some t -> W n = Some t) /\
+    args_consistent args ps.
+Proof. exact analyze_complete_canonical. Qed.
+Print Assumptions C04_analyze_complete.
+
+Theorem C04_accepts_exactly : forall jlook jsig balias main_name jname W args main,
+  (forall n j, jlook n = Some j -> jlook (jname j) = Some j) ->
+  (exists p ps ws tr,
+     analyze_program jlook jsig balias main_name p = Ok (main, ps, ws, tr) /\
+     (forall n t, lookupN ws n = Some t -> W n = Some t) /\ args_consistent args ps)
+  <->
+  wt_program jsig W args main = true /\ src_ok_main jlook jname main = true.
+Proof. exact accepts_exactly. Qed.
+Print Assumptions C04_accepts_exactly.
